@@ -21,6 +21,7 @@ From Ark Require Import Model.Base Model.Mask Model.Pool Model.Util Model.World 
 From Ark Require Import Proofs.WF Proofs.StorageA Proofs.StorageBDefs Proofs.StorageB_sb1 Proofs.StorageB_sb2 Proofs.StorageB_sb3.
 From Ark Require Import Proofs.StorageC Proofs.LockWorld Properties.Common.
 From Ark Require Import Proofs.Rel2Defs Proofs.Rel2Remove Proofs.Rel2SetRel Proofs.Rel2Ops.
+From Ark Require Import Proofs.Rel2Defs Proofs.Rel2Hist Proofs.Rel2HistQ Proofs.Rel2HistR.
 
 Theorem C10_stale_handle_rejected : forall debug s n o h e,
   Inv s n -> uses_handle o h -> handle s h = Some e -> live s e = false ->
@@ -96,7 +97,23 @@ Definition C10_rel_exchange := r2a_exchange_spec.
 Definition C10_rel_remove_entity := r2c_remove_entity_spec.
 Definition C10_rel_set_relations := r2b_set_relations_spec_noobs.
 
-Definition C10_all := (C10_rel_new_entity, C10_rel_add, C10_rel_remove, C10_rel_exchange, C10_rel_remove_entity, C10_rel_set_relations,
+(** Histories with Reset (Rel2HistR): a handle of the current epoch whose entity was removed is rejected with the
+    state unchanged; any handle failing the generation check is rejected in EVERY state (no invariant needed). *)
+Theorem C10_stale_handle_rejected_in_histories_with_resets :
+  forall (debug : bool) (s : W) (n k : nat) (o : op) (h : Z) (e : ent),
+         Inv2R s n k ->
+         uses_handle o h ->
+         (h <? 0)%Z = true \/ k <= Z.to_nat h ->
+         handle s h = Some e -> live s e = false -> exists er : err, step_op debug o s = Err er s.
+Proof. exact stale_handle_rejected_R. Qed.
+
+Theorem C10_dead_handle_rejected_in_every_state :
+  forall (debug : bool) (s : W) (o : op) (h : Z) (e : ent),
+         uses_handle o h ->
+         handle s h = Some e -> alive s e = false -> exists er : err, step_op debug o s = Err er s.
+Proof. exact r2r_dead_rejected. Qed.
+
+Definition C10_all := (C10_stale_handle_rejected_in_histories_with_resets, C10_dead_handle_rejected_in_every_state, C10_rel_new_entity, C10_rel_add, C10_rel_remove, C10_rel_exchange, C10_rel_remove_entity, C10_rel_set_relations,
   C10_stale_handle_rejected, C10_reachable, C10_dead_handle_operations, C10_locked_world,
   C10_add_rejected_keeps_content, C10_remove_rejected_keeps_content).
 Print Assumptions C10_all.
